@@ -150,12 +150,10 @@ theorem readRecord_ne_fuel (om : Omit) (n : Nat) (s : List Byte) : readRecord om
       · split
         · simp
         · split
+          · rename_i hp
+            intro hc; cases hc
+            exact decodeBody_ne_fuel _ _ _ hp
           · simp
-          · split
-            · rename_i hp
-              intro hc; cases hc
-              exact decodeBody_ne_fuel _ _ _ hp
-            · simp
   · simp
 
 /-- every record read leaves a strictly shorter stream -/
@@ -173,10 +171,8 @@ theorem readRecord_rest_lt (om : Omit) (n : Nat) (s : List Byte) (r : Record) (r
         · cases h
         · split at h
           · cases h
-          · split at h
-            · cases h
-            · cases h
-              simp only [List.length_drop, List.length_cons]; omega
+          · cases h
+            simp only [List.length_drop, List.length_cons]; omega
   · cases h
 
 /-- the fuel of the record loop is sufficient -/
